@@ -16,6 +16,8 @@ P = "param.parameterized."
 
 
 def run(ctx):
+    ctx.rule("R04.v", "slot dispatch model (shared with R06.t): watchers of a Parameter attribute are dispatched through the namespace of the Parameter's OWNER, so an open batch on an "
+                      "instance defers them like value watchers", floor=1)
     ctx.rule("R04.k", "`param.update(...)` used as a context manager restores the previous links on exit: Parameters.update, interpreted abstractly on six call forms (keywords / dict / dict+keywords / "
                       "pairs / pairs+keywords), hands the restorer the reference of every given parameter that is currently linked (synchronous or pending asynchronous) -- shared with R08.f", floor=1)
     ctx.rule("R04.x", "context-manager model: _batch_call_watchers, batch_call_watchers, discard_events, _syncing and edit_constant interpreted abstractly with the body of the `with` supplied at the `yield` (62 cases: entry state x body ends normally / raises x nesting x queues replaced in the body x Parameter copies made in the body): flag, queues, syncing set and constant flags are, after the block, what they were before; the flush runs iff outermost, after the restore, also when the body raised", floor=1)
@@ -311,6 +313,8 @@ def run(ctx):
     flush_model(ctx, "R04.h")
     from checks.c08 import update_restorer_refs
     update_restorer_refs(ctx, "R04.k")
+    from checks.shared import trigger_event_model
+    trigger_event_model(ctx, "R04.v")
 
     from checks.shared import restorer_model
     restorer_model(ctx, "R04.r")
